@@ -72,8 +72,9 @@ type sim struct {
 	// history for violation reports
 	startLog []string
 	// C16 trace-invariant bookkeeping lives in the proxies of the incarnation.
-	everStarted map[string]int  // uuid -> number of crunch-run processes ever created
-	staleUnlock map[string]bool // uuids unlocked by fixStaleLocks of an incarnation while a process was alive
+	everStarted      map[string]int  // uuid -> number of crunch-run processes ever created
+	staleUnlock      map[string]bool // uuids unlocked by fixStaleLocks of an incarnation while a process was alive
+	staleUnlockEarly map[string]bool // ... and that happened before StaleLockTimeout had elapsed
 
 	t0            time.Time
 	o             scenOpts
